@@ -154,7 +154,7 @@ func poolConfigs(prop string, thorough bool) (cfgs []poolCfg, depth int) {
 		}
 		base := alphabet{Resolve: []string{"a2", "empty"}, ResErr: true, States: "basic", Shutdown: true, Unknown: true,
 			Cmds: []string{"plain", "bind", "bound", "unbind", "badloc"}, Keys: []string{"k1"}, Gens: []string{"L", "P", "O"},
-			Ctx: []string{"g", "n", "el"}, Done: []string{"ok", "ok:k1", "err", "nr"}, Fail: true, MaxOpen: 2, MaxSC: 4}
+			Ctx: []string{"g", "n", "el", "gn"}, Done: []string{"ok", "ok:k1", "err", "nr"}, Fail: true, MaxOpen: 2, MaxSC: 4}
 		feats := []string{"all", "plain", "fallback", "refresh", "rr"}
 		for _, f := range feats {
 			c := poolCfg{Name: prop + " " + f, Min: 1, Max: 2, WM: 1, Setup: readyPool(1), A: base}
@@ -169,7 +169,7 @@ func poolConfigs(prop string, thorough bool) (cfgs []poolCfg, depth int) {
 				c.RR = true
 			}
 			if c.RefCalls > 0 {
-				c.A.Ctx = []string{"g,d1", "n,d1", "el"}
+				c.A.Ctx = []string{"g,d1", "n,d1", "el", "gn"}
 				c.A.Done = append(append([]string{}, base.Done...), "cde")
 				c.A.Adv = []int{2}
 			}
